@@ -40,6 +40,8 @@ use tokio::sync::{RwLock, mpsc};
 use tokio_util::sync::CancellationToken;
 use wincode::{SchemaRead, SchemaWrite};
 
+#[cfg(feature = "verif-hooks")]
+pub use self::block_producer::VerifBlockProducer;
 pub use self::blockstore::{
     AddShredError, BlockInfo, Blockstore, BlockstoreEvent, BlockstoreImpl, SharedBlockstore,
 };
